@@ -173,6 +173,16 @@ func runC12(res *Result, tier string, seed int64, replay string) {
 		}}
 		docs = append(docs, doc{"entities:positional", nd, nd.MJML()})
 	}
+	// elements written without content, every one that may be empty: the self-closing rewrite turns each into <x/>
+	{
+		nd := &Node{Tag: "mjml", Kids: []*Node{
+			{Tag: "mj-head", Kids: []*Node{{Tag: "mj-raw"}, {Tag: "mj-title"}, {Tag: "mj-preview"}, {Tag: "mj-style"}, {Tag: "mj-attributes"}}},
+			{Tag: "mj-body", Kids: []*Node{{Tag: "mj-raw"}, {Tag: "mj-section", Kids: []*Node{{Tag: "mj-column", Kids: []*Node{
+				{Tag: "mj-raw"}, {Tag: "mj-text"}, {Tag: "mj-spacer"}, {Tag: "mj-divider"}, (&Node{Tag: "mj-button"}).Set("href", "u"), {Tag: "mj-table"}, (&Node{Tag: "mj-image"}).Set("src", "i.png"), {Tag: "mj-text", Text: "after"}}}, {Tag: "mj-column"}}},
+				{Tag: "mj-section"}, {Tag: "mj-wrapper"}, {Tag: "mj-hero"}}},
+		}}
+		docs = append(docs, doc{"entities:empty-elements", nd, nd.MJML()})
+	}
 	rws := rewrites()
 	// sequential: documents carry different heads (see C07)
 	for i, d := range docs {
